@@ -485,15 +485,30 @@ impl Ctx {
         S::Value: Serialize + Clone + std::fmt::Debug,
         F: Fn(&S::Value) -> Verdict + Sync,
     {
+        self.run_proptest_with(stage, cases, || &strat, check)
+    }
+
+    /// Same, for strategies that are not `Sync` (boxed/recursive ones): every worker builds
+    /// its own copy through `make`.
+    pub fn run_proptest_with<S, R, G, F>(&self, stage: &str, cases: u32, make: G, check: F)
+    where
+        S: Strategy,
+        R: std::ops::Deref<Target = S>,
+        G: Fn() -> R + Sync,
+        S::Value: Serialize + Clone + std::fmt::Debug,
+        F: Fn(&S::Value) -> Verdict + Sync,
+    {
         let t0 = Instant::now();
         let workers = self.threads.min(cases.max(1) as usize).max(1);
         let per = (cases as usize + workers - 1) / workers;
         let before = self.stats.lock().unwrap().evaluations;
         std::thread::scope(|s| {
             for w in 0..workers {
-                let strat = &strat;
+                let make = &make;
                 let check = &check;
                 s.spawn(move || {
+                    let strat_holder = make();
+                    let strat: &S = &strat_holder;
                     let mut seed_bytes = [0u8; 32];
                     let mut r = SplitMix64::derive(self.seed, &format!("{}/{}", self.property, stage), w as u64);
                     for c in seed_bytes.chunks_mut(8) {
@@ -503,20 +518,22 @@ impl Ctx {
                         cases: per as u32,
                         failure_persistence: None,
                         max_shrink_iters: 20_000,
-                        max_global_rejects: 1_000_000,
+                        max_global_rejects: 2048,
                         ..Config::default()
                     };
                     let mut runner = TestRunner::new_with_rng(cfg, TestRng::from_seed(RngAlgorithm::ChaCha, &seed_bytes));
                     let acc = std::cell::RefCell::new(Acc::new(self, stage, false));
                     let counting = std::cell::Cell::new(true);
                     let res = runner.run(strat, |case| {
+                        if counting.get() && self.has_failed() && acc.borrow().st.fails.is_empty() {
+                            // another worker already found a failure: stop generating
+                            return Err(TestCaseError::reject("stopped: failure found elsewhere"));
+                        }
                         let v = guarded(|| check(&case));
                         let failmsg = if counting.get() {
                             let failed = acc.borrow_mut().record(&case, v.clone());
                             if failed {
                                 counting.set(false);
-                            }
-                            if failed {
                                 Some(v.fail.clone().unwrap_or_else(|| "unlisted signature".into()))
                             } else {
                                 None
@@ -544,7 +561,9 @@ impl Ctx {
                         st.fails.clear();
                         st.fails.push((stage.to_string(), serde_json::to_value(&value).unwrap_or(Value::Null), reason.message().to_string()));
                     } else if let Err(TestError::Abort(reason)) = res {
-                        st.stages.push(json!({"stage": stage, "abort": reason.message().to_string()}));
+                        if !self.has_failed() {
+                            st.stages.push(json!({"stage": stage, "abort": reason.message().to_string()}));
+                        }
                     }
                     self.merge(st);
                 });
